@@ -1,1 +1,135 @@
-//! C01/C04/C14: reference route matcher (reference model; to be written)
+//! Reference route matcher: a per-route table, segment-wise comparison — nothing else.
+//!
+//! The property statement leaves two things open, so the matcher yields a *set* of admissible outcomes:
+//!  * greedy descent ("static preferred at each position", no way back) vs. a backtracking search that
+//!    still finds a param route after a static dead end;
+//!  * whether "static preferred" is evaluated among the routes registered for the request's method only
+//!    or among all routes (a static route that exists only for another method then shadows a param route).
+//! When all four readings agree the expectation is strict.
+
+use std::collections::BTreeSet;
+
+#[derive(Clone, Debug, PartialEq, Eq, PartialOrd, Ord)]
+pub enum Match {
+    /// the handler with this id runs and receives these raw (still percent-encoded) segments as params
+    Handler { hid: String, raw_params: Vec<String> },
+    /// no user handler runs
+    NoHandler,
+}
+
+#[derive(Clone, Debug)]
+pub struct Entry { pub segs: Vec<String>, pub method: String, pub hid: String }
+
+pub fn is_param(seg: &str) -> bool { seg.starts_with(':') }
+
+/// Split a request path into segments after ignoring one trailing slash.  `None` if it does not start with '/'.
+/// ("//" is read segment-wise here: an empty segment followed by the ignored trailing slash; `admissible`
+/// adds the string-wise reading "/" for that one path.)
+pub fn request_segments(path: &str) -> Option<Vec<String>> {
+    let p = path.strip_prefix('/')?;
+    if p.is_empty() { return Some(vec![]) }
+    let p = p.strip_suffix('/').unwrap_or(p);
+    Some(p.split('/').map(str::to_string).collect())
+}
+
+fn seg_matches(pattern: &str, seg: &str) -> bool {
+    if is_param(pattern) { !seg.is_empty() } else { pattern == seg }
+}
+
+/// all routes (as segment patterns) among `routes` compatible with the first `depth` request segments
+#[allow(dead_code)]
+fn candidates<'a>(routes: &[&'a Entry], req: &[String], depth: usize) -> Vec<&'a Entry> {
+    routes.iter().copied().filter(|e| e.segs.len() >= depth && (0..depth).all(|i| seg_matches(&e.segs[i], &req[i]))).collect()
+}
+
+fn pattern_eq(route_seg: &str, p: &str) -> bool {
+    if p == ":" { is_param(route_seg) } else { !is_param(route_seg) && route_seg == p }
+}
+
+/// Walk a virtual trie whose nodes are pattern prefixes (param names normalised to ":"); at each position
+/// the static alternative is tried first.  Returns the chosen pattern path.
+fn search(routes: &[&Entry], req: &[String], backtrack: bool) -> Option<Vec<String>> {
+    fn rec(routes: &[Vec<String>], req: &[String], prefix: &mut Vec<String>, backtrack: bool) -> Option<Vec<String>> {
+        let depth = prefix.len();
+        if depth == req.len() {
+            return routes.iter().any(|r| r == prefix).then(|| prefix.clone())
+        }
+        let seg = req[depth].clone();
+        let has = |p: &str| routes.iter().any(|r| r.len() > depth && r[..depth] == prefix[..] && pattern_eq(&r[depth], p));
+        let has_static = !is_param(&seg) && has(&seg);
+        let has_param = !seg.is_empty() && has(":");
+        if has_static {
+            prefix.push(seg.clone());
+            let r = rec(routes, req, prefix, backtrack);
+            prefix.pop();
+            if r.is_some() || !backtrack { return r }
+        }
+        if has_param {
+            prefix.push(":".to_string());
+            let r = rec(routes, req, prefix, backtrack);
+            prefix.pop();
+            return r
+        }
+        None
+    }
+    let norm: Vec<Vec<String>> = routes.iter().map(|e| norm_segs(e)).collect();
+    rec(&norm, req, &mut Vec::new(), backtrack)
+}
+
+fn norm_segs(e: &Entry) -> Vec<String> { e.segs.iter().map(|s| if is_param(s) { ":".to_string() } else { s.clone() }).collect() }
+
+/// The set of admissible outcomes for `method path` against `table`.
+pub fn admissible(table: &[Entry], method: &str, path: &str) -> BTreeSet<Match> {
+    let mut out = BTreeSet::new();
+    if path == "//" { out.extend(admissible(table, method, "/")); }
+    let Some(req) = request_segments(path) else { out.insert(Match::NoHandler); return out };
+    let lookup_method = if method == "HEAD" { "GET" } else { method };
+    let of_method: Vec<&Entry> = table.iter().filter(|e| e.method == lookup_method).collect();
+    let all: Vec<&Entry> = table.iter().collect();
+    for backtrack in [false, true] {
+        // per-method reading
+        out.insert(match search(&of_method, &req, backtrack) {
+            Some(pat) => to_match(&of_method, &pat, &req),
+            None => Match::NoHandler,
+        });
+        // all-routes reading: find the route first, then look for the method on it
+        out.insert(match search(&all, &req, backtrack) {
+            Some(pat) => {
+                let on_route: Vec<&Entry> = of_method.iter().copied().filter(|e| norm_segs(e) == pat).collect();
+                if on_route.is_empty() { Match::NoHandler } else { to_match(&on_route, &pat, &req) }
+            }
+            None => Match::NoHandler,
+        });
+    }
+    out
+}
+
+fn to_match(routes: &[&Entry], pat: &[String], req: &[String]) -> Match {
+    let e = routes.iter().find(|e| norm_segs(e) == pat).expect("pattern came from these routes");
+    let raw_params = pat.iter().zip(req).filter(|(p, _)| p.as_str() == ":").map(|(_, s)| s.clone()).collect();
+    Match::Handler { hid: e.hid.clone(), raw_params }
+}
+
+#[cfg(test)]
+mod t {
+    use super::*;
+    fn e(route: &str, m: &str) -> Entry {
+        Entry { segs: if route == "/" { vec![] } else { route[1..].split('/').map(str::to_string).collect() }, method: m.into(), hid: format!("{m} {route}") }
+    }
+    #[test] fn basics() {
+        let t = vec![e("/users", "GET"), e("/:page", "GET"), e("/a/b", "GET"), e("/:p/c", "GET"), e("/", "POST")];
+        let one = |m: &str, p: &str| { let s = admissible(&t, m, p); assert_eq!(s.len(), 1, "{m} {p}: {s:?}"); s.into_iter().next().unwrap() };
+        assert_eq!(one("GET", "/users"), Match::Handler { hid: "GET /users".into(), raw_params: vec![] });
+        assert_eq!(one("GET", "/users/"), Match::Handler { hid: "GET /users".into(), raw_params: vec![] });
+        assert_eq!(one("GET", "/users2"), Match::Handler { hid: "GET /:page".into(), raw_params: vec!["users2".into()] });
+        assert_eq!(one("GET", "/users//"), Match::NoHandler);
+        assert_eq!(one("POST", "/"), Match::Handler { hid: "POST /".into(), raw_params: vec![] });
+        assert_eq!(one("GET", "/"), Match::NoHandler);
+        assert_eq!(one("HEAD", "/users"), Match::Handler { hid: "GET /users".into(), raw_params: vec![] });
+        // greedy dead end vs backtracking: two readings
+        assert_eq!(admissible(&t, "GET", "/a/c").len(), 2);
+        assert_eq!(request_segments("/a//"), Some(vec!["a".into(), "".into()]));
+        assert_eq!(request_segments("//"), Some(vec!["".into()]));
+        assert_eq!(request_segments("/"), Some(vec![]));
+    }
+}
